@@ -31,7 +31,7 @@ INFO: dict[str, dict[str, Any]] = {
                  "the in-order exactly-once run (schedule-independent parts), every (task, iteration, step) executed once, no "
                  "execution after a recorded result, one plan per stage iteration. distinct = digest of the durable history; "
                  "non-trivial = at least one reorder or lost ack actually fired"),
-        "budget": {"quick": {"runs": 320, "seconds": 150, "chunk": 10}, "thorough": {"runs": None, "seconds": 1200, "chunk": 10}},
+        "budget": {"quick": {"runs": 800, "seconds": 150, "chunk": 10}, "thorough": {"runs": None, "seconds": 1200, "chunk": 10}},
         "assumptions": COMMON_ASSUMPTIONS + ["injected lock waits are capped (300 simulated s per run) so the engine's own wait time-outs are not the observed behaviour"],
     },
     "C03": {
@@ -41,7 +41,7 @@ INFO: dict[str, dict[str, Any]] = {
                  "seeded delivery order with StartStage messages injected for arbitrary stages; oracle evaluates the join condition on "
                  "the durable upstream statuses at every durable NOT_STARTED->RUNNING change and checks that no task runs in an "
                  "unstarted stage. distinct = durable-history digest; non-trivial = a reorder or an injected StartStage fired"),
-        "budget": {"quick": {"runs": 400, "seconds": 120, "chunk": 20}, "thorough": {"runs": None, "seconds": 900, "chunk": 20}},
+        "budget": {"quick": {"runs": 600, "seconds": 120, "chunk": 20}, "thorough": {"runs": None, "seconds": 900, "chunk": 20}},
         "assumptions": COMMON_ASSUMPTIONS,
     },
     "C05": {
@@ -51,7 +51,7 @@ INFO: dict[str, dict[str, Any]] = {
                  "of a generated workflow (failing branches, early joins, synthetic stages, loops) under a seeded delivery order with "
                  "lost acks; oracle = finished-or-waiting invariant, SUCCEEDED => all top-level continuable, TERMINAL stage => failed "
                  "workflow, no RUNNING stage in a finished workflow, empty DLQ. non-trivial = reorder or lost ack fired"),
-        "budget": {"quick": {"runs": 400, "seconds": 120, "chunk": 20}, "thorough": {"runs": None, "seconds": 900, "chunk": 20}},
+        "budget": {"quick": {"runs": 800, "seconds": 120, "chunk": 20}, "thorough": {"runs": None, "seconds": 900, "chunk": 20}},
         "assumptions": COMMON_ASSUMPTIONS,
     },
     "C06": {
@@ -60,7 +60,7 @@ INFO: dict[str, dict[str, Any]] = {
         "rule": ("one evaluation = one simulated execution (mode drawn per run: seeded schedule / crash at a seeded commit with restart "
                  "and recovery / two crashes / cancel request at a seeded step); every durable status change row is checked. "
                  "distinct = durable-history digest; every run is non-trivial (each contains >= 1 durable status change to judge)"),
-        "budget": {"quick": {"runs": 400, "seconds": 120, "chunk": 20}, "thorough": {"runs": None, "seconds": 900, "chunk": 20}},
+        "budget": {"quick": {"runs": 800, "seconds": 120, "chunk": 20}, "thorough": {"runs": None, "seconds": 900, "chunk": 20}},
         "assumptions": COMMON_ASSUMPTIONS + ["the frozen table is the pinned commit's VALID_TRANSITIONS; a change of the live table is itself reported"],
     },
     "C10": {
@@ -80,7 +80,7 @@ INFO: dict[str, dict[str, Any]] = {
                  "and the remaining messages, CancelWorkflow included, are delivered in a seeded order with lost acks; oracle: no task "
                  "execution after the commit that recorded CancelWorkflow as processed, unfinished stages end CANCELED, workflow final. "
                  "non-trivial = the cancel was issued and processed while the workflow was unfinished"),
-        "budget": {"quick": {"runs": 400, "seconds": 120, "chunk": 20}, "thorough": {"runs": None, "seconds": 900, "chunk": 20}},
+        "budget": {"quick": {"runs": 800, "seconds": 120, "chunk": 20}, "thorough": {"runs": None, "seconds": 900, "chunk": 20}},
         "assumptions": COMMON_ASSUMPTIONS,
     },
     "C14": {
@@ -90,7 +90,7 @@ INFO: dict[str, dict[str, Any]] = {
                  "with/without context_update; first/middle/last of 1-3 tasks; optional stages before/after; continue-on-failure) or polls n "
                  "times, under a seeded delivery order; oracle: strictly increasing progress, success below the limit, <= 11 executions then "
                  "TERMINAL at the limit, retries queued later than the failure. non-trivial = at least one failed attempt or RUNNING poll"),
-        "budget": {"quick": {"runs": 300, "seconds": 120, "chunk": 15}, "thorough": {"runs": None, "seconds": 900, "chunk": 15}},
+        "budget": {"quick": {"runs": 600, "seconds": 120, "chunk": 15}, "thorough": {"runs": None, "seconds": 900, "chunk": 15}},
         "assumptions": COMMON_ASSUMPTIONS + ["documented limit = 10 attempts (README / error.py); 10 and 11 executions are both accepted"],
     },
     "C15": {
@@ -101,7 +101,7 @@ INFO: dict[str, dict[str, Any]] = {
                  "{unset,0,1,3} on workflow or stage, under a seeded delivery order with lost acks; oracle = model: jumps = min(requested, "
                  "limit), TERMINAL beyond the limit, per-iteration run counts, bypassed stages SKIPPED and never run. non-trivial = at "
                  "least one JumpToStage was queued"),
-        "budget": {"quick": {"runs": 300, "seconds": 120, "chunk": 15}, "thorough": {"runs": None, "seconds": 900, "chunk": 15}},
+        "budget": {"quick": {"runs": 600, "seconds": 120, "chunk": 15}, "thorough": {"runs": None, "seconds": 900, "chunk": 15}},
         "assumptions": COMMON_ASSUMPTIONS,
     },
     "C16": {
@@ -112,7 +112,7 @@ INFO: dict[str, dict[str, Any]] = {
                  "delivery order; oracle: each value seen by a task comes from an ancestor, from its current iteration, nearest ancestor on "
                  "path-ordered keys, own context wins, list keys hold the union; reducers equal the model for any completion order. "
                  "non-trivial = more than two task executions recorded"),
-        "budget": {"quick": {"runs": 400, "seconds": 120, "chunk": 20}, "thorough": {"runs": None, "seconds": 900, "chunk": 20}},
+        "budget": {"quick": {"runs": 800, "seconds": 120, "chunk": 20}, "thorough": {"runs": None, "seconds": 900, "chunk": 20}},
         "assumptions": COMMON_ASSUMPTIONS + ["4 PYTHONHASHSEED values per batch (set iteration order feeds the ancestor merge)"],
     },
     "C04": {
@@ -135,7 +135,7 @@ INFO: dict[str, dict[str, Any]] = {
                  "2-3 interleaved workers (random walk / PCT) plus, in 60% of runs, a retention-sweep actor; oracle: <=1 RUNNING stage per "
                  "mutex key at every commit boundary, every waiter eventually runs, exactly one choice winner and CANCELED losers, no claim "
                  "of a live execution deleted. non-trivial = at least one pre-emption"),
-        "budget": {"quick": {"runs": 240, "seconds": 150, "chunk": 10}, "thorough": {"runs": None, "seconds": 1200, "chunk": 10}},
+        "budget": {"quick": {"runs": 480, "seconds": 150, "chunk": 10}, "thorough": {"runs": None, "seconds": 1200, "chunk": 10}},
         "assumptions": COMMON_ASSUMPTIONS,
         "expected_probes": ["lock_wait"],
     },
@@ -148,7 +148,7 @@ INFO: dict[str, dict[str, Any]] = {
                  "at SQL statement level, judged by version accounting + presence of every successfully saved change + absence of given-up "
                  "ones; or (E) a workflow in which upstream completions race on a first-of/quorum join's tracking context, or a CancelStage "
                  "races task completion. non-trivial = at least one ConcurrencyError was raised (S) / one pre-emption (E)"),
-        "budget": {"quick": {"runs": 320, "seconds": 150, "chunk": 16}, "thorough": {"runs": None, "seconds": 1200, "chunk": 16}},
+        "budget": {"quick": {"runs": 640, "seconds": 150, "chunk": 16}, "thorough": {"runs": None, "seconds": 1200, "chunk": 16}},
         "assumptions": COMMON_ASSUMPTIONS + ["a writer that gives up after ConcurrencyError issues no further statement; its connection is closed when the writer ends (process exit), rolling back whatever it left open"],
         "expected_probes": ["concurrency_error", "lock_wait"],
     },
@@ -173,7 +173,7 @@ INFO: dict[str, dict[str, Any]] = {
                  "bloom capacity in {150,10,6} (small values force rotation), dedup_trust_negative_cache in {off,on}, seeded bloom resets and "
                  "clean process restarts between steps, 30% with a crash; oracle: no handler invocation for a message id once its "
                  "processed_messages row is durable; filter never forgets an id before reset(). non-trivial = at least one lost ack fired"),
-        "budget": {"quick": {"runs": 400, "seconds": 120, "chunk": 20}, "thorough": {"runs": None, "seconds": 900, "chunk": 20}},
+        "budget": {"quick": {"runs": 600, "seconds": 120, "chunk": 20}, "thorough": {"runs": None, "seconds": 900, "chunk": 20}},
         "assumptions": COMMON_ASSUMPTIONS + ["dedup_trust_negative_cache=on is exercised in single-writer runs only (its documented precondition)"],
     },
     "C18": {
@@ -186,7 +186,7 @@ INFO: dict[str, dict[str, Any]] = {
                  "under engine W (sender is a third actor with a seeded delay); oracle: stays SUSPENDED until a signal is handled, exactly "
                  "one resume and one resumed execution per persistent signal, correct payload, transient signal without effect unless "
                  "SUSPENDED. non-trivial = the signal was actually sent"),
-        "budget": {"quick": {"runs": 400, "seconds": 150, "chunk": 20}, "thorough": {"runs": None, "seconds": 1200, "chunk": 20}},
+        "budget": {"quick": {"runs": 800, "seconds": 150, "chunk": 20}, "thorough": {"runs": None, "seconds": 1200, "chunk": 20}},
         "assumptions": COMMON_ASSUMPTIONS,
     },
     "C12": {
@@ -196,7 +196,7 @@ INFO: dict[str, dict[str, Any]] = {
                  "order; at quiescence the real EventReplayer is compared with the store (workflow, stages and tasks last changed by a regular "
                  "handler), up to 5 seeded prefix lengths are checked against a replay of the truncated log and up to 3 seeded snapshot "
                  "positions against the full replay. non-trivial = the workflow's log holds more than 3 events"),
-        "budget": {"quick": {"runs": 300, "seconds": 120, "chunk": 15}, "thorough": {"runs": None, "seconds": 900, "chunk": 15}},
+        "budget": {"quick": {"runs": 600, "seconds": 120, "chunk": 15}, "thorough": {"runs": None, "seconds": 900, "chunk": 15}},
         "assumptions": COMMON_ASSUMPTIONS + ["prefixes and snapshot positions are sampled per run (5 and 3), not all of them"],
     },
     "C13": {
@@ -209,7 +209,7 @@ INFO: dict[str, dict[str, Any]] = {
                  "CompleteTask/CompleteStage and the status change they describe are in the same commit, both directions; the bus "
                  "subscriber only sees durable events; sequence numbers increase. non-trivial = the crash / injected error fired or the run "
                  "was interleaved"),
-        "budget": {"quick": {"runs": 400, "seconds": 150, "chunk": 20}, "thorough": {"runs": None, "seconds": 1200, "chunk": 10}},
+        "budget": {"quick": {"runs": 800, "seconds": 150, "chunk": 20}, "thorough": {"runs": None, "seconds": 1200, "chunk": 10}},
         "assumptions": COMMON_ASSUMPTIONS + ["crash points are sampled per program here (the exhaustive per-program sweep is C01's); the unit of atomicity is the SQLite transaction"],
     },
 }
